@@ -332,7 +332,54 @@ def partial_nodes_scenario():
   return n, n, viols, [dict(scenario='Partial nodes with and without bound arguments')]
 
 
+def derived_namedtuple_scenario():
+  """A Buildable referenced both directly and through instances of classes that subclass a named
+  tuple class: built once, the same object at every reference, the named-tuple instance rebuilt."""
+  from layerb import pool
+  viols = []
+  def bad(what):
+    viols.append(dict(what=what, shape=[], same=False, sig='derived-namedtuple', store='', op='build'))
+  for mk in (lambda s: pool.Span(s, 10), lambda s: pool.LabelledPt([s]), lambda s: [pool.Span(0, {'k': s})]):
+    shared = fdl.Config(_Res, 'shared')
+    holder = mk(shared)
+    cfg = fdl.Config(_combine, shared, holder, also=fdl.Config(_combine, holder))
+    _Res.made.clear()
+    try:
+      built = fdl.build(cfg)
+    except Exception as e:   # pylint: disable=broad-except
+      bad(f'build raised {type(e).__name__}: {str(e)[:80]}')
+      continue
+    if _Res.made.count('shared') != 1:
+      bad(f'a Buildable referenced directly and through {type(holder).__name__} was invoked '
+          f'{_Res.made.count("shared")} times')
+    found = []
+    def walk(x):
+      if isinstance(x, fdl.Buildable):
+        found.append('unbuilt')
+      elif isinstance(x, _Res):
+        found.append(id(x))
+      elif isinstance(x, dict):
+        for v in x.values():
+          walk(v)
+      elif isinstance(x, (list, tuple)):
+        for v in x:
+          walk(v)
+      elif hasattr(x, 'parts'):
+        walk(x.parts)
+        walk(x.named)
+    walk(built)
+    if 'unbuilt' in found:
+      bad(f'a reference through {type(holder).__name__} received the unbuilt Buildable')
+    elif len(set(found)) != 1 or len(found) < 3:
+      bad(f'references through {type(holder).__name__} did not all receive the one built object '
+          f'({len(set(found))} distinct objects at {len(found)} references)')
+  return 3, 3, viols, [dict(scenario='sharing through subclasses of named tuple classes')]
+
+
 def replay(case):
+  if case.get('sig') == 'derived-namedtuple':
+    r = derived_namedtuple_scenario()
+    return r[2][0]['what'] if r[2] else None
   if case.get('sig') == 'partials':
     r = partial_nodes_scenario()
     return r[2][0]['what'] if r[2] else None
@@ -361,6 +408,7 @@ def run(tier='quick', seed=0, nproc=16):
   res.append(common.guard(depth_scenario))
   res.append(common.guard(dropped_results_scenario))
   res.append(common.guard(partial_nodes_scenario))
+  res.append(common.guard(derived_namedtuple_scenario))
   return common.merge(
       res, 'layerb.prop_C02',
       rule='every DAG shape over Config/list/tuple/dict nodes with <=2 slots per node (all shapes '
